@@ -1,13 +1,16 @@
 import Rare.Base.Proto
 import Rare.Model.C14Format
+import Rare.Model.C14F64
 import Rare.Drv.Expr
 /-!
 Line protocol of property C14 (see `harness/corr/c14.go` for the Go side).
 
-`Float` appears only in this file: the model (`Rare/Model/C14.lean`) is polymorphic in the
-`float64` operations (`Arith α`); here they are Lean's IEEE doubles, with Go's pure-Go
-`math.Log`/`Log2`/`Log10` ported operation by operation (amd64 has no assembly for them), so
-that the palette indices of the log scalers can be compared exactly.  `math.Pow` (heatmap legend of a
+The model (`Rare/Model/C14.lean`) is polymorphic in the `float64` operations (`Arith α`).  The answers are
+computed with the software binary64 instance `f64Arith` (`Rare/Model/C14F64.lean`, the one the `…_f64`
+theorems are about).  Lean's native `Float` appears only in this file: Go's pure-Go
+`math.Log`/`Log2`/`Log10` are ported operation by operation (amd64 has no assembly for them), so
+that the palette indices of the log scalers can be compared exactly, and `scale` is cross-checked
+against an all-native evaluation.  `math.Pow` (heatmap legend of a
 log scale) is not ported: both sides replace that one line by `~`.
 
 Ops: `scale`, `barw`, `stack`, `cell`, `strlen`, `fmtseq`, `hdr`, `tablew`, `render histo|histo2|bars|table|heat|spark|reduce`.
@@ -124,7 +127,21 @@ def answer (r : Res String) : String :=
   | .ok s => s
   | .error _ => "panic"
 
-def A := floatArith
+/-! ### the instance the answers are computed with: the software binary64 model
+
+Every `float64` operation of the scalers is the kernel-checkable `Rare.F64` one – the definitions the
+theorems `…_f64` of `Props/C14.lean` are about.  Only `math.Log2/Log10/Pow` (parameters of those theorems)
+are evaluated natively, on the bit pattern.  The op `scale` also evaluates the whole computation with
+the native instance and answers `model-vs-native` when the two differ. -/
+
+def toNative (x : F64) : Float := Float.ofBits x.toBits
+def ofNative (f : Float) : F64 := if f.isNaN then F64.nan else F64.ofBits f.toBits
+
+def f64A : Arith F64 :=
+  f64Arith (fun x => ofNative (goLog2 (toNative x))) (fun x => ofNative (goLog10 (toNative x)))
+    (fun x => ofNative (Float.pow 2 (toNative x))) (fun x => ofNative (Float.pow 10 (toNative x)))
+
+def A := f64A
 
 /-! ### render ops -/
 
@@ -291,7 +308,13 @@ def handle : List String → String
     match scaler? sc, v.toInt?, mn.toInt?, mx.toInt? with
     | some k, some v, some mn, some mx =>
       let u := scale A k v mn mx
-      s!"ok {u.toBits.toNat} b16={bucket A 16 u} b10={bucket A 10 u} b9={bucket A 9 u} b4={bucket A 4 u} l50={lengthVal A 50 u} l450={lengthVal A 450 u}"
+      let ans (bits : Nat) (b16 b10 b9 b4 l50 l450 : Int) : String :=
+        s!"ok {bits} b16={b16} b10={b10} b9={b9} b4={b4} l50={l50} l450={l450}"
+      let m := ans u.bits (bucket A 16 u) (bucket A 10 u) (bucket A 9 u) (bucket A 4 u) (lengthVal A 50 u) (lengthVal A 450 u)
+      let N := floatArith
+      let w := scale N k v mn mx
+      let n := ans w.toBits.toNat (bucket N 16 w) (bucket N 10 w) (bucket N 9 w) (bucket N 4 w) (lengthVal N 50 w) (lengthVal N 450 w)
+      if m = n then m else s!"model-vs-native f64={m} native={n}"
     | _, _, _, _ => "bad-args"
   | ["barw", uni, maxLen, sc, v, mn, mx] =>
     match bit uni, maxLen.toInt?, scaler? sc, v.toInt?, mn.toInt?, mx.toInt? with
